@@ -284,7 +284,7 @@ func (e *c18Env) digest() string {
 		}
 		sort.Slice(cols, func(i, j int) bool { return cols[i].Id < cols[j].Id })
 		for _, col := range cols {
-			fmt.Fprintf(h, "col %s/%s schema=%x shards=%d\n", u, col.Id, c18SortedMsgpack(col.IndexSchema), len(col.ShardIds))
+			fmt.Fprintf(h, "col %s/%s schema=%s shards=%d\n", u, col.Id, absSchema(col.IndexSchema), len(col.ShardIds))
 			infos, err := e.cnode.VerifGetShardsInfo(col)
 			total := int64(0)
 			for _, s := range infos {
@@ -302,7 +302,7 @@ func (e *c18Env) digest() string {
 			}
 			sort.Strings(ids)
 			for _, id := range ids {
-				fmt.Fprintf(h, "  %s %x\n", id, c18SortedMsgpack(docs[id]))
+				fmt.Fprintf(h, "  %s %x\n", id, c18SortedMsgpack(map[string]any(docs[id])))
 			}
 		}
 	}
